@@ -201,6 +201,7 @@ CHECKS["C02"] = {
         rapid_job("stress", "./verifh/c02", "TestStressLinearizable", 20000, 80000),
         rapid_job("counters", "./verifh/c02", "TestStressCounters", 1500, 5000, shards_t=8),
         rapid_job("trait-counters", "./verifh/c02", "TestTraitCountersForced", 3000, 20000),
+        rapid_job("generated-ids", "./verifh/c02", "TestGeneratedIDsUnderInterference", 3000, 20000),
     ],
 }
 
